@@ -1,0 +1,36 @@
+//go:build verif
+
+package localchans
+
+// Contracts for the gowp verifier (/verif). Comment-only file: with or without the build tag the compiled package is the same.
+
+//@ load-pkg github.com/lightningnetwork/lnd/fn/v2
+//@ load-pkg github.com/lightningnetwork/lnd/graph/db/models
+//@ inline-func (github.com/lightningnetwork/lnd/fn/v2.Option[github.com/lightningnetwork/lnd/lnwire.Fee]).WhenSome
+//@ inline-func github.com/lightningnetwork/lnd/graph/db/models.NewInboundFeeFromWire
+//@
+//@ // ---- a policy update: the policy handed to the switch (what CheckHtlcForward will enforce) is, field by field, the policy of the
+//@ // ---- edge that was just updated and will be announced - "keep the current value" of the request means the edge's value, never zero
+//@ func (r *Manager) UpdatePolicy$1
+//@   props C09
+//@   loop * havoc
+//@   site mapupdate policiesToUpdate as after-update: assert ret(updateEdge) == nil
+//@   site mapupdate policiesToUpdate as outbound-fees: assert arg(val).BaseFee == edge.FeeBaseMSat && arg(val).FeeRate == edge.FeeProportionalMillionths
+//@   site mapupdate policiesToUpdate as delta-and-limits: assert arg(val).TimeLockDelta == edge.TimeLockDelta &&
+//@        arg(val).MinHTLCOut == edge.MinHTLC && arg(val).MaxHTLC == edge.MaxHTLC
+//@   site mapupdate policiesToUpdate as inbound-fee: assert arg(val).InboundFee.Base == ite(edge.InboundFee.isSome, edge.InboundFee.some.BaseFee, 0) &&
+//@        arg(val).InboundFee.Rate == ite(edge.InboundFee.isSome, edge.InboundFee.some.FeeRate, 0)
+//@
+//@ // ---- applying the request to the edge: fee fields always, the inbound fee only when the request carries one, the HTLC limits
+//@ // ---- inside the channel's own limits; an edge is handed on only if min <= max <= the channel's maximum
+//@ func (r *Manager) updateEdge
+//@   props C09
+//@   loop * havoc
+//@   ensures result == nil ==> edge.FeeBaseMSat == newSchema.BaseFee && edge.FeeProportionalMillionths == newSchema.FeeRate &&
+//@           edge.TimeLockDelta == wrap(newSchema.TimeLockDelta, 16)
+//@   ensures result == nil ==> edge.MinHTLC <= edge.MaxHTLC && retn(getHtlcAmtLimits, 2) == nil &&
+//@           retn(getHtlcAmtLimits, 0) <= edge.MinHTLC && edge.MaxHTLC <= retn(getHtlcAmtLimits, 1)
+//@   ensures result == nil && newSchema.MaxHTLC != 0 ==> edge.MaxHTLC == newSchema.MaxHTLC
+//@   ensures result == nil && newSchema.MinHTLC != nil ==> edge.MinHTLC == old(*newSchema.MinHTLC)
+//@   ensures result == nil && !newSchema.InboundFee.isSome ==> edge.InboundFee.isSome == old(edge.InboundFee.isSome) &&
+//@           edge.InboundFee.some.BaseFee == old(edge.InboundFee.some.BaseFee) && edge.InboundFee.some.FeeRate == old(edge.InboundFee.some.FeeRate)
